@@ -1,0 +1,17 @@
+//go:build verif
+
+package backtrace
+
+import df "github.com/awslabs/ar-go-tools/analysis/dataflow"
+
+// VerifOnVisit, when set, observes the backward traversal of Visitor.visit: "source" (a traversal starts at the
+// entry point cur), "visit" (cur has been popped from the stack), "end" (the traversal of this entry point is over),
+// and the outcomes of addNext for the candidate next reached from cur: "tuple" (dropped by the tuple-index filter),
+// "stop" (key already seen or depth limit), "lasso", "add" (pushed and marked seen).
+var VerifOnVisit func(event string, cur *df.VisitorNode, next *df.VisitorNode)
+
+func verifVisit(event string, cur *df.VisitorNode, next *df.VisitorNode) {
+	if VerifOnVisit != nil {
+		VerifOnVisit(event, cur, next)
+	}
+}
